@@ -17,6 +17,18 @@ const (
 	CacheMapDirect = "sync.Map-direct"
 )
 
+// CacheLRUDirect: a bare valid.NewLRU(Cap) handed to SetStructTypeCache, as a user would do it (the library can
+// see that it is its own LRU type); needs a fresh process.
+const CacheLRUDirect = "lru-direct"
+
+func installDirectLRU(cap int) {
+	if theCache != nil || cacheTouched {
+		panic("e2: an lru-direct plan must run in a fresh process")
+	}
+	valid.SetStructTypeCache(valid.NewLRU(cap))
+	cacheTouched = true
+}
+
 // installDirectMap installs a bare sync.Map (the scratch copy's, i.e. the shim's) as the type cache of this process.
 func installDirectMap() {
 	if theCache != nil || cacheTouched {
